@@ -5,7 +5,8 @@
    What is proved: the XSD reference matcher is correct against the denotational semantics for all
    regular expressions and strings; the textual rewrite libyang applies before PCRE2 (as coded, after
    the fixes 0ef0929 and 97840a6) always ends with a text or one of the three errors of the code
-   (no undefined behaviour, no fuel), is the intended anchor escaping on every pattern made of
+   (no undefined behaviour, no fuel), leaves a pattern without blocks unchanged exactly when all its '^' / '$' are
+   inside brackets or escaped, is the intended anchor escaping on every pattern made of
    ordinary bytes, escape pairs, bracket expressions and anchors, substitutes a block by the range of
    that block with or without brackets, and IS the intended rewrite (rewrite_spec) on every pattern
    without an escaped backslash whose block names are exact; it is provably NOT the intended text on
@@ -45,21 +46,44 @@ Example C18_rewrite_no_ub_ex :
   = Ok [92;92;91;93;92;120;123;48;51;55;48;125;45;92;120;123;48;51;70;70;125].
 Proof. vm_compute. reflexivity. Qed.
 
-(* A pattern that contains no '^', no '$' and no occurrence of \p{Is reaches pcre2_compile()
-   unchanged, or is rejected because of a ']' outside brackets (error class 1); nothing else can
-   happen. Partial: says nothing about patterns with anchors or blocks (next theorems). *)
-Theorem C18_rewrite_identity_partial :
+(* Which patterns reach pcre2_compile() UNCHANGED. For an arbitrary byte string p without an occurrence of \p{Is
+   (any nesting of brackets and groups, escaped brackets, anything): IF every '^' / '$' of p stands inside a bracket
+   expression or directly after an unescaped backslash (anchors_protected, with the bracket depth and escape state of
+   the code's own loop), THEN the text handed to PCRE2 is p itself, or p is rejected because of a ']' outside
+   brackets (error class 1); and ONLY IF: when the text handed over is p, every '^' / '$' is protected in that sense.
+   This replaces the former C18_rewrite_identity_partial, which excluded every pattern containing the byte '^' or
+   '$' anywhere (also inside brackets such as [^a$] and escaped as \^). The two shapes still outside an identity
+   statement are outside it by necessity, the rewrite changes them: an unescaped '^' / '$' outside brackets (the
+   "only if" half; what happens instead is C18_rewrite_caret_dollar) and an occurrence of \p{Is (C18_rewrite_block,
+   C18_rewrite_eq_spec). *)
+Theorem C18_rewrite_identity :
+  forall p, find_sub needle p = None ->
+    (anchors_protected 0 false p = true -> rewrite p = Ok p \/ rewrite p = Err 1) /\
+    (rewrite p = Ok p -> anchors_protected 0 false p = true).
+Proof. exact rewrite_identity_iff. Qed.
+Print Assumptions C18_rewrite_identity.
+
+(* the former statement is the special case without any '^' / '$' byte *)
+Theorem C18_rewrite_identity_noanchor :
   forall p, (forall c, In c p -> is_anchor c = false) -> find_sub needle p = None ->
             rewrite p = Ok p \/ rewrite p = Err 1.
-Proof. exact rewrite_identity. Qed.
-Print Assumptions C18_rewrite_identity_partial.
+Proof.
+  intros p Hp Hn. apply (proj1 (rewrite_identity_iff p Hn)). apply noanchor_protected. exact Hp.
+Qed.
+Print Assumptions C18_rewrite_identity_noanchor.
 
-(* hypotheses satisfiable by a non-trivial pattern: [a-c]+\.(x|y){2,3} is unchanged, a]b is rejected *)
+(* hypotheses satisfiable by non-trivial patterns: [a-c]+\.(x|y){2,3} and [^$a\]]\^[$^]\$x\[ are unchanged, a]b is
+   rejected, x^ is not protected (and is changed) *)
 Example C18_rewrite_identity_ex :
   rewrite [91;97;45;99;93;43;92;46;40;120;124;121;41;123;50;44;51;125]
   = Ok [91;97;45;99;93;43;92;46;40;120;124;121;41;123;50;44;51;125]
-  /\ rewrite [97;93;98] = Err 1.
-Proof. vm_compute. split; reflexivity. Qed.
+  /\ anchors_protected 0 false [91;94;36;97;92;93;93;92;94;91;36;94;93;92;36;120;92;91] = true
+  /\ find_sub needle [91;94;36;97;92;93;93;92;94;91;36;94;93;92;36;120;92;91] = None
+  /\ rewrite [91;94;36;97;92;93;93;92;94;91;36;94;93;92;36;120;92;91]
+     = Ok [91;94;36;97;92;93;93;92;94;91;36;94;93;92;36;120;92;91]
+  /\ rewrite [97;93;98] = Err 1
+  /\ anchors_protected 0 false [120;94] = false /\ rewrite [120;94] = Ok [120;92;94].
+Proof. vm_compute. repeat split. Qed.
 
 (* A pattern built from ordinary bytes, backslash pairs of ANY byte (so also the escaped anchors \^
    and \$), bracket expressions (any bytes but brackets and backslash, or backslash pairs, inside; '^'
@@ -172,6 +196,11 @@ Example C18_rewrite_eq_spec_ex :
   rewrite p = Ok [92;94;91;92;120;123;48;52;48;48;125;45;92;120;123;48;52;70;70;125;93;43;91;36;92;120;123;48;69;48;48;125;45;92;120;123;48;69;55;70;125;93].
 Proof. vm_compute. repeat split. Qed.
 
+(* The three block refutations below were re-checked against the fix history of src/schema_compile_node.c: no commit
+   after 97840a6 touches lys_compile_type_pattern_check() or lys_compile_pattern_chblocks_xmlschema2perl() (72878af and
+   b6c3725 concern range/length parts), so D3, D4 and D5 are still what the code does; the Rewrite correspondence of
+   every check run compares the model with the code on these very patterns. *)
+
 (* Refuted without exact names (defect D4, prefix lookup): \p{IsGreekExtended} (XSD: U+1F00..U+1FFF;
    the reference accepts U+1F00 = E1 BC 80) is replaced by the range of Greek, the first table entry
    whose name is a prefix; the intended text is [\x{1F00}-\x{1FFF}]. *)
@@ -206,6 +235,35 @@ Theorem C18_block_depth_refuted :
             rewrite_spec p = Ok [92;92;91;97;93;91;92;120;123;48;51;55;48;125;45;92;120;123;48;51;70;70;125;93].
 Proof. exists [92;92;91;97;93;92;112;123;73;115;71;114;101;101;107;125]. vm_compute. repeat split. Qed.
 Print Assumptions C18_block_depth_refuted.
+
+(* Regression classes (seeded changes C18-1 and C18-4), as refutations of the VARIANT models that transcribe the code
+   under those changes (RewriteP.esc_pass_prevout, chblocks_carry), next to what the code as it is does.
+   C18-1: the need for a backslash in front of '^' / '$' is decided from the previously written byte instead of the
+   escape state. Pattern a\\^b (XSD: a, a backslash, a caret, b; the reference accepts a\^b): the code hands
+   a\\\^b to PCRE2 (escaped backslash, escaped caret), the variant a\\^b (escaped backslash, then an ANCHOR). *)
+Theorem C18_prev_byte_variant_refuted :
+  exists p, xsd_match p [97;92;94;98] = Some true /\
+            rewrite p = Ok [97;92;92;92;94;98] /\
+            esc_pass_prevout 0 false 0 p = Ok [97;92;92;94;98] /\
+            esc_pass 0 false p = Ok [97;92;92;92;94;98].
+Proof. exists [97;92;92;94;98]. vm_compute. repeat split. Qed.
+Print Assumptions C18_prev_byte_variant_refuted.
+
+(* C18-4: the bracket counter of the block rewrite is initialised once instead of before every rescan. Pattern
+   [\p{IsBasicLatin}]+\p{IsGreek} (the reference accepts ab followed by GREEK SMALL LETTER ALPHA): the code writes the
+   second range with its brackets, [\x{0000}-\x{007F}]+[\x{0370}-\x{03FF}]; the variant carries the depth 1 of the first
+   block over and writes it without: [\x{0000}-\x{007F}]+\x{0370}-\x{03FF}. *)
+Theorem C18_carried_depth_variant_refuted :
+  exists p, xsd_match p [97;98;206;177] = Some true /\
+            rewrite p = Ok [91;92;120;123;48;48;48;48;125;45;92;120;123;48;48;55;70;125;93;43;91;92;120;123;48;51;55;48;125;45;92;120;123;48;51;70;70;125;93] /\
+            bind (esc_pass 0 false p) (fun q => chblocks_carry (S (length q)) 0%Z q)
+            = Ok [91;92;120;123;48;48;48;48;125;45;92;120;123;48;48;55;70;125;93;43;92;120;123;48;51;55;48;125;45;92;120;123;48;51;70;70;125] /\
+            has_sub bs2 p = false /\ blocks_exact p = true.
+Proof.
+  exists [91;92;112;123;73;115;66;97;115;105;99;76;97;116;105;110;125;93;43;92;112;123;73;115;71;114;101;101;107;125].
+  vm_compute. repeat split.
+Qed.
+Print Assumptions C18_carried_depth_variant_refuted.
 
 (* lyplg_type_validate_patterns(): when the matcher itself does not fail, the value is accepted iff
    every pattern of the list is satisfied, where a pattern without invert-match is satisfied by a
